@@ -147,8 +147,13 @@ static std::string op_rs(Toks& t) {
 
 // ----------------------------------------------------------------------------- rwp
 
+// The initialisation model is a time-varying collaborator: its c-th call (counted per case, over all the objects of the
+// case) places the particles around 9.0e9 + 1.0e8 c.  "Fresh draws" of the c-th resampling are therefore distinguishable
+// from the draws handed out by any earlier call (a cached / reused prior subset is not fresh).
+static long g_init_calls = 0;
+static double init_base(long call) { return 9.0e9 + 1.0e8 * call; }
 struct HInit : public ParticleSetInitialization {
-    bool initialize(ParticleSet& p) override { fill_set(p, 9.0e9); p.weight().setConstant(-3.25); return true; }
+    bool initialize(ParticleSet& p) override { fill_set(p, init_base(g_init_calls)); ++g_init_calls; p.weight().setConstant(-3.25); return true; }
 };
 
 // one resample() call on the prior-mixing object `r` (built with `ratio`)
@@ -171,13 +176,14 @@ static std::string rwp_call(Resampling& r, std::mt19937_64& twin, double ratio, 
     for (long i = 0; i < m; ++i) kept(i) = lw[k + i];
     double lse = utils::log_sum_exp(kept);
     double u1 = twin_u1(twin, m);
+    const long call0 = g_init_calls;                    // the draws of THIS call come from the call0-th initialisation
     r.resample(cor, res, par);
     o.s((u1 > 0.0 && u1 < 1.0 / m) ? "u1-in-range" : "u1-out-of-range").d(u1);
     for (long i = 0; i < m; ++i) { double x = kept(i); x -= lse; o.d(std::exp(x)); }
     out_shape(o, res);
     for (long i = 0; i < n; ++i) o.n(par(i));
     // identity of every output column: input particle i -> i+1; fresh draw j -> -(j+1); anything else -> 0
-    ParticleSet fresh(k, lin, circ, quat); fill_set(fresh, 9.0e9);
+    ParticleSet fresh(k, lin, circ, quat); fill_set(fresh, init_base(call0));
     long cols = std::min<long>(res.state().cols(), std::min<long>(res.mean().cols(), res.dim_covariance ? res.covariance().cols() / (long)res.dim_covariance : 0));
     o.n(cols);
     for (long j = 0; j < cols; ++j) {
@@ -185,7 +191,7 @@ static std::string rwp_call(Resampling& r, std::mt19937_64& twin, double ratio, 
         // of state, mean and covariance must match bit for bit
         long id = 0;
         double v = res.state().rows() ? res.state()(0, j) : 0.0;
-        double qc = v / sc.s / 1000.0, qf = (v - 9.0e9) / 1000.0;
+        double qc = v / sc.s / 1000.0, qf = (v - init_base(call0)) / 1000.0;
         long ci = (std::isfinite(qc) && std::fabs(qc) < 1e15) ? std::llround(qc) - 1 : -1;
         long fi = (std::isfinite(qf) && std::fabs(qf) < 1e15) ? std::llround(qf) - 1 : -1;
         if (ci >= 0 && ci < n && col_same(res, j, cor0, ci)) id = ci + 1;
@@ -205,6 +211,7 @@ static std::string op_rwp(Toks& t) {
     double ratio = t.dbl();
     VectorXd w = t.vec(n); t.done();
     std::mt19937_64 twin(static_cast<unsigned int>(seed));
+    g_init_calls = 0;
     ResamplingWithPrior r(std::unique_ptr<ParticleSetInitialization>(new HInit()), ratio, static_cast<unsigned int>(seed));
     return rwp_call(r, twin, ratio, n, lin, circ, quat, w, seed);
 }
@@ -231,6 +238,7 @@ static std::string op_seq(Toks& t) {
     }
     t.done();
     bool late = kind >= 100; kind %= 100;
+    g_init_calls = 0;
     unsigned int seed = static_cast<unsigned int>(seed_in);
     auto init = [] { return std::unique_ptr<ParticleSetInitialization>(new HInit()); };
     bool prior = (kind == 1 || kind == 6 || kind == 7 || kind == 9 || kind == 10 || kind == 12 || kind == 13);
